@@ -135,9 +135,21 @@ pub(crate) fn parse_type_system_document(
             let mutation_field_arguments = mutation_field.arguments.clone();
 
             let top_level_schema_field_selection_info =
-                flattened_entity_named(db, payload_object_entity_name)
+                match flattened_entity_named(db, payload_object_entity_name)
                     .and_then(|entity| entity.lookup(db).selection_info.as_object())
-                    .expect("Expected entity to exist and to be an object.");
+                {
+                    Some(selection_info) => selection_info,
+                    None => {
+                        non_fatal_diagnostics.push(Diagnostic::new(
+                            format!(
+                                "Invalid @exposeField directive. \
+                                `{payload_object_entity_name}` is not defined or is not an object."
+                            ),
+                            None,
+                        ));
+                        continue 'exposeField;
+                    }
+                };
 
             let (mut parts_reversed, target_parent_object_entity) =
                 match traverse_selections_and_return_path(
